@@ -338,3 +338,12 @@ def run(ctx, tier):
     ctx.assume('float(text) agrees with a firmware strtod on RS274 decimals without exponent')
     ctx.assume('each letter is modelled with at most one occurrence per command in the handler analysis; repeated letters '
                'are covered by the parameterDict rule and by the plain (unguarded) assignments of the handler loops')
+
+
+def tokeniser_premise(ctx):
+    """C19.R1-R3 as premises of a property that reads the words of a command (number language, tokeniser progress, items)"""
+    ctx.rule('C19.R1', 'C19: every RS274 decimal is read as one value and nothing else is', floor=2)
+    ctx.rule('C19.R2', 'C19: the word tokeniser cannot stop early', floor=1)
+    ctx.rule('C19.R3', 'C19: parameterItems yields (upper-cased letter, float | None) in source order', floor=4)
+    language_rules(ctx)
+    items_rules(ctx, parser_interp(ctx.model, unroll=2))
